@@ -186,7 +186,12 @@ impl Man {
     }
 
     fn _render_title(&self, roff: &mut Roff) {
-        roff.control("TH", self.title_args());
+        let args = self
+            .title_args()
+            .into_iter()
+            .map(control_arg)
+            .collect::<Vec<_>>();
+        roff.control("TH", args.iter().map(|s| s.as_str()));
     }
 
     // Turn metadata into arguments for a .TH macro.
@@ -274,7 +279,7 @@ impl Man {
                 .into_iter()
                 .partition(|&a| a.get_help_heading() == Some(heading));
 
-            roff.control("SH", [heading.to_uppercase().as_str()]);
+            roff.control("SH", [control_arg(&heading.to_uppercase()).as_str()]);
             render::options(roff, &args);
         }
     }
@@ -287,8 +292,8 @@ impl Man {
     }
 
     fn _render_subcommands_section(&self, roff: &mut Roff) {
-        let heading = subcommand_heading(&self.cmd);
-        roff.control("SH", [heading]);
+        let heading = control_arg(subcommand_heading(&self.cmd));
+        roff.control("SH", [heading.as_str()]);
         render::subcommands(roff, &self.cmd, &self.section);
     }
 
@@ -329,6 +334,12 @@ impl Man {
         roff.control("SH", ["AUTHORS"]);
         roff.text([author]);
     }
+}
+
+// An argument of a control line has to stay on that line: what follows a line break would be
+// read as a line of its own, and as a request if it starts with `.` or `'`
+fn control_arg(arg: &str) -> String {
+    arg.replace(['\n', '\r'], " ")
 }
 
 // Does the application have a version?
